@@ -257,12 +257,14 @@ package silence
 //@   assumes sil != nil && len(sil.MatcherSets) > 0 ==> sil.MatcherSets[0] != nil
 //@   ensures [sets-untouched] sil != nil ==> sil.MatcherSets == old(sil.MatcherSets)
 //@   ensures [legacy-mirror] sil != nil && len(sil.MatcherSets) > 0 ==> sil.Matchers == sil.MatcherSets[0].Matchers
+//@   assigns silencepb.Silence.Matchers
 //@ func postprocessUnmarshalledSilence
 //@   props C11
 //@   requires sil != nil
 //@   ensures [legacy-cleared] len(sil.Matchers) == 0 && sil.Matchers == nil
 //@   ensures [multi-set-untouched] old(len(sil.MatcherSets)) > 0 ==> sil.MatcherSets == old(sil.MatcherSets)
 //@   ensures [legacy-upgraded] old(len(sil.MatcherSets)) == 0 && old(len(sil.Matchers)) > 0 ==> len(sil.MatcherSets) == 1 && sil.MatcherSets[0] != nil && sil.MatcherSets[0].Matchers == old(sil.Matchers)
+//@   assigns sil.Matchers, sil.MatcherSets
 
 // C11/C02/C12: loading a snapshot installs exactly the decoded silences whose matchers compile, each filed under
 // its id, listed in the version index and present in the matcher index - so that queries and garbage collection
